@@ -9,6 +9,7 @@
 #include <unistd.h>
 #include <pthread.h>
 #include <execinfo.h>
+#include "watchdog.h"
 static int hexv(int c) { return c <= '9' ? c - '0' : (c | 32) - 'a' + 10; }
 
 #define MAXLIVE 65536
